@@ -86,7 +86,7 @@ func judgeC20(c CursorCase, o *CursorObs) (*Violation, bool) {
 		}
 	}
 	// racing cancel/Close: nil, recorded failures or the ctx error are all acceptable
-	if err != nil && !isCtx && o.Corrupted == 0 && !errors.Is(err, errInjected) {
+	if err != nil && !isCtx && o.Corrupted+o.CorruptedLate == 0 && !errors.Is(err, errInjected) {
 		return violf("terminal Err()=%v is neither nil, a recorded store failure, nor the context error", err), false
 	}
 	return nil, false
